@@ -342,7 +342,8 @@ Print Assumptions C11_admissible_set_members.
 (* An accepted case line (verdict code 0 or 1) parses COMPLETELY into a case of one of the three operations and
    - op 0 (n <= 30): for every (c, observation) of the line [small_item_ok]: N = n, Quantile = q bit for bit,
      0 <= Lo < Hi <= n+1; c >= 1: whole range, Confidence 1, not Ambiguous; c < 1 [small_clauses]: the observed
-     Confidence is within 1e-10 of the exact Binomial(n,q) mass m of the buckets Lo..Hi-1, the interval contains
+     Confidence is within 1e-10 of the exact Binomial(n,q) mass m of the buckets Lo..Hi-1 AND, as a float,
+     >= c itself (unless neither neighbour bucket has mass >= 2^-999: the loop ran out of mass), the interval contains
      a start candidate (the lower mode [mode_x], or when (n+1) q is within 2^-40 of an integer and the regime is
      not float-exact, one of the two integers next to it), m >= c or m within the window of c or there is no
      mass next to the interval, m minus ONE end bucket is < c or within the window of c, Ambiguous only if
